@@ -634,7 +634,7 @@ pub fn run(ctx: &mut Ctx) {
     corpus(ctx);
     if std::env::var("FV_DEBUG_PANICS").is_ok() { eprintln!("corpus done {:?}", t0.elapsed()); }
     // small histories: everything near 0 and near M, with snapshots and rollbacks
-    for i in 0..ctx.n(60, 600) {
+    for i in 0..ctx.n(60, 300) {
         let mut h = Hist::new(ctx);
         let len = ctx.rng.range(50, 400);
         for _ in 0..len { random_op(ctx, &mut h, false); }
@@ -644,7 +644,7 @@ pub fn run(ctx: &mut Ctx) {
         let _ = i; ctx.distinct(h.log.join(";").as_bytes());
     }
     // big histories: sizes up to the 64 MiB limit; rollback only as the final, Rust-only operation
-    for i in 0..ctx.n(6, 100).min(100) {
+    for i in 0..ctx.n(6, 30).min(60) {
         let mut h = Hist::new(ctx);
         let len = ctx.rng.range(40, 120);
         let snap_at = ctx.rng.below(len);
